@@ -53,7 +53,25 @@ def main(rec):
         for c, own in zip(ch, owns):
             if (c or (None, None)) != own:
                 done(True, f"sub-request {c} reports its own timing as {own}")
-    done(False, f"no failing scenario among {len(cases)} for {rec['obligation']}")
+    # sub-requests issued one after the other inside one outer context: each one's own timing covers exactly its own wire requests
+    from esrally.client import context
+
+    holder = context.RequestContextHolder()
+    seq = [(1.0, 10.0), (20.0, 30.0), (40.0, 45.0)]
+    with holder.new_request_context() as outer:
+        for k, (a, b) in enumerate(seq):
+            with holder.new_request_context() as sub:
+                empty = (sub.request_start, sub.request_end)
+                holder.update_request_start(a)
+                holder.update_request_end(b)
+                own = (sub.request_start, sub.request_end)
+            if empty != (None, None):
+                done(True, f"sub-request #{k} of a sequence {seq} starts with the timing {empty} before it issued any request (a fresh context must be empty)")
+            if own != (a, b):
+                done(True, f"sub-request #{k} of a sequence {seq} reports its own timing as {own}, its wire request ran {(a, b)}")
+        if (outer.request_start, outer.request_end) != (1.0, 45.0):
+            done(True, f"outer request of the sequence {seq} records {(outer.request_start, outer.request_end)}")
+    done(False, f"no failing scenario among {len(cases) + 1} for {rec['obligation']}")
 
 
 if __name__ == "__main__":
